@@ -106,7 +106,7 @@ pub fn run_script(o: &RunOpts) -> Result<usize, String> {
                     }
                     if let Ok(v) = serde_json::from_str::<Value>(&l) {
                         if let Some(i) = v.get("i").and_then(|i| i.as_i64()) { last_i = i; }
-                        if v["outcome"] == "panic" { aborted = true; }
+                        if v["outcome"] == "panic" && v.get("cont").is_none() { aborted = true; }
                         let ready = v["ev"] == "kill_here";
                         writeln!(trace, "{l}").map_err(|e| format!("{e}"))?;
                         nev += 1;
@@ -326,7 +326,7 @@ pub fn worker(root: &str, script: &str, from: usize, to: usize, max_slots: usize
         }
         match r {
             Ok(ev) => {
-                let stop = ev["outcome"] == "panic";
+                let stop = ev["outcome"] == "panic" && ev.get("cont").is_none();
                 let _ = writeln!(out, "{ev}");
                 let _ = out.flush();
                 if stop {
